@@ -523,6 +523,11 @@ func (p *Parser) parseComponentStmt() ast.Statement {
 		}
 	}
 
+	// a component that passes slots is closed by its own "@end"
+	if stmt.Slots != nil && !p.expectPeek(token.END) {
+		return nil
+	}
+
 	p.components = append(p.components, stmt)
 
 	return stmt
